@@ -16,9 +16,6 @@ package discovery
 //@ func (*sqlStore).exists
 //@   trusted
 //@   benign
-//@ func (*sqlStore).updateValidated
-//@   trusted
-//@   benign
 //@ func (pe.PresentationDefinition).Match
 //@   trusted
 //@   benign
@@ -223,6 +220,24 @@ package discovery
 //@   prop C16
 //@   call (*gorm.DB).Group #1 requires [only-validated-entries-unless-asked-otherwise] allowUnvalidated || didCallWith("(*gorm.DB).Where", 1, any("validated != 0"))
 //@   call vc.ParseVerifiablePresentation #1 requires [only-unexpired-entries] arg(0) == match.PresentationRaw && match.PresentationExpiration > ret(call (time.Time).Unix #1)
+
+// The validated flag is what search filters on, so it is set for exactly the rows the client has just
+// verified itself: one row per given record, addressed by the row's primary key (the presentation id
+// is chosen by the presenter and is not unique over services and subjects), and nothing but the flag.
+//@ func (*sqlStore).updateValidated$1
+//@   prop C16
+//@   call (*gorm.DB).Update #1 requires [flag-set-for-the-row-of-this-record-only] arg(1) == "validated" && arg(2) == any(SQLBool(true))
+//@        && arg(0) == ret(call (*gorm.DB).Where #1) && arg(call (*gorm.DB).Where #1, 1) == any("id = ?")
+//@        && len(arg(call (*gorm.DB).Where #1, 2)) == 1 && arg(call (*gorm.DB).Where #1, 2)[0] == any(record.ID)
+//@        && arg(call (*gorm.DB).Where #1, 0) == ret(call (*gorm.DB).Model #1) && arg(call (*gorm.DB).Model #1, 0) == tx
+//@   ensures [every-given-record-is-flagged] isNilIface(result) ==> $done1
+//@   ensures [a-failed-update-is-reported] did(call (*gorm.DB).Update #1) && !isNilIface(ret(call (*gorm.DB).Update #1).Error) ==> !isNilIface(result)
+//@ func (*sqlStore).updateValidated
+//@   prop C16
+//@   assume-benign
+//@   ensures [rows-are-addressed-by-their-primary-key] did(call (*gorm.DB).Update #1) ==> arg(call (*gorm.DB).Where #1, 1) == any("id = ?") && len(arg(call (*gorm.DB).Where #1, 2)) == 1
+//@        && (exists k int :: 0 <= k && k < len(records) && arg(call (*gorm.DB).Where #1, 2)[0] == any(records[k].ID))
+//@   ensures [in-one-transaction] isNilIface(result) ==> did(call (*gorm.DB).Transaction #1) && isNilIface(ret(call (*gorm.DB).Transaction #1))
 
 // A different, non-empty stored seed: the service's entries are deleted and the row is saved with the
 // new seed and timestamp 0, in one transaction. The same seed (or none yet) changes nothing.
